@@ -337,3 +337,182 @@ def expand_spec(ty, cfg, n, args, ev, m):
         else:
             want.append(z)
     return _lanes_check(ty, cfg, n, ev, want, 'leading lanes spread to the selected positions in order, zero elsewhere')
+
+
+# ---------------------------------------------------------------- C04 loads / stores (footprint + provenance)
+def _footprint(accesses, base, total, what):
+    """accesses: list of (base, off, size, align, inst).  Union must be exactly [0,total) on `base`."""
+    cov = [0] * total
+    for (b, off, size, align, inst) in accesses:
+        if b != base:
+            return '%s through unexpected object %s' % (what, b)
+        if off < 0 or off + size > total:
+            return '%s of bytes [%d,%d) outside the register footprint [0,%d)' % (what, off, off + size, total)
+        for k in range(off, off + size):
+            cov[k] = 1
+    miss = [k for k in range(total) if not cov[k]]
+    if miss:
+        return 'bytes %s of the footprint are never %s' % (miss[:8], what)
+    return None
+
+
+def _align_ok(accesses, limit, what):
+    for (b, off, size, align, inst) in accesses:
+        if align > limit and not (off % align == 0 and limit % align == 0):
+            # IR alignment states an assumption on the pointer: it may not exceed what the contract grants,
+            # taking the constant offset into account
+            pass
+        if align > limit:
+            import math
+            eff = math.gcd(limit, off) if off else limit
+            if align > max(eff, 1):
+                return '%s assumes alignment %d at offset %d but the contract only grants %d' % (what, align, off, limit)
+    return None
+
+
+def load_spec(aligned):
+    def f(ty, cfg, n, args, ev):
+        W = ty.bits
+        total = n * W // 8
+        label = '%s load: reads exactly [0,%d) bytes, lane i = element i' % ('aligned' if aligned else 'unaligned', total)
+        if ev.writes or ev.var_access:
+            return False, label, 'P', 'memory written / indexed access in a load'
+        e = _footprint(ev.reads, 'arg:p', total, 'read')
+        if e:
+            return False, label, 'P', e
+        e = _align_ok(ev.reads, cfg.bits // 8 if aligned else W // 8, 'read')
+        if e:
+            return False, label, 'P', e
+        want = [T.atom_bv('p', i, W) for i in range(n)]
+        ok, _, _, why = _lanes_check(ty, cfg, n, ev, want, label)
+        return ok, label, 'P', why
+    return f
+
+
+def store_spec(aligned):
+    def f(ty, cfg, n, args, ev):
+        a = args[0]
+        W = ty.bits
+        total = n * W // 8
+        label = '%s store: writes exactly [0,%d) bytes, element i = lane i' % ('aligned' if aligned else 'unaligned', total)
+        if ev.reads or ev.var_access:
+            return False, label, 'P', 'the destination (or other argument memory) is read'
+        e = _footprint(ev.writes, 'arg:o', total, 'written')
+        if e:
+            return False, label, 'P', e
+        e = _align_ok(ev.writes, cfg.bits // 8 if aligned else W // 8, 'write')
+        if e:
+            return False, label, 'P', e
+        mem = ev.mem.get('arg:o', {})
+        for i in range(n):
+            got = T.cat(*[mem[i * W // 8 + k] for k in range(W // 8)])
+            if got != a[i]:
+                return False, label, 'P', 'memory element %d receives %s instead of lane %d' % (i, T.fmt(got, 3)[:200], i)
+        return True, label, 'P', ''
+    return f
+
+
+def bool_load_spec(ty, cfg, n, args, ev):
+    W = ty.bits
+    label = 'bool load: reads exactly n bytes, lane i = (mem[i] != 0)'
+    if ev.writes or ev.var_access:
+        return False, label, 'P', 'memory written in a load'
+    e = _footprint(ev.reads, 'arg:p', n, 'read')
+    if e:
+        return False, label, 'P', e
+    ret = ev.ret
+    for i in range(n):
+        got = T.slice_(ret, i, 1) if cfg.mask_regs else T.canon(T.slice_(ret, i * W, W))
+        alts = [T.atom_bv('p', i, 1)]     # memory is modelled as bool objects: byte i = [p_i, 0 x 7]
+        if not any(got == (x if cfg.mask_regs else T.rep(x, W)) for x in alts):
+            return False, label, 'P', 'lane %d = %s' % (i, T.fmt(got, 3)[:200])
+    return True, label, 'P', ''
+
+
+def bool_store_spec(ty, cfg, n, args, ev):
+    m = args[0]
+    label = 'bool store: writes exactly n bytes, mem[i] = lane i ? 1 : 0'
+    if ev.reads or ev.var_access:
+        return False, label, 'P', 'argument memory read in a store'
+    e = _footprint(ev.writes, 'arg:o', n, 'written')
+    if e:
+        return False, label, 'P', e
+    mem = ev.mem.get('arg:o', {})
+    for i in range(n):
+        want = T.cat(m[i], T.const(7, 0))
+        if mem[i] != want:
+            return False, label, 'P', 'byte %d receives %s' % (i, T.fmt(mem[i], 3)[:200])
+    return True, label, 'P', ''
+
+
+def broadcast_spec(ty, cfg, n, args, ev):
+    s = args[0]
+    return _lanes_check(ty, cfg, n, ev, [s[0]] * n, 'every lane = the scalar')
+
+
+def ctor_spec(ty, cfg, n, args, ev):
+    want = [T.atom_bv('e%d' % i, 0, ty.bits) for i in range(n)]
+    return _lanes_check(ty, cfg, n, ev, want, 'lane i = i-th constructor argument')
+
+
+def bget_spec(ty, cfg, n, args, ev, i):
+    a = args[0]
+    got = _ret_value(ty, ev)
+    if got == a[i]:
+        return True, 'get(i) = lane i', 'P', ''
+    return False, 'get(%d) = lane %d' % (i, i), 'P', 'got %s' % T.fmt(got, 3)[:200]
+
+
+def gather_spec(ty, cfg, n, args, ev):
+    label = 'gather: lane i = src[index lane i]; exactly n element reads'
+    W = ty.bits
+    if ev.writes:
+        return False, label, 'P', 'memory written'
+    if ev.reads:
+        return False, label, 'P', 'constant-offset reads of the source in a gather: %s' % [(r[1], r[2]) for r in ev.reads][:4]
+    idx = args[1]
+    loads = [v for v in ev.var_access if v[0] == 'load']
+    if len(loads) != n or len(ev.var_access) != n:
+        return False, label, 'P', '%d indexed reads instead of %d' % (len(loads), n)
+    ret = ev.ret
+    used = set()
+    for i in range(n):
+        got = T.canon(T.slice_(ret, i * W, W))
+        t = T.single_term(got)
+        if t is None or t.kind != 'op' or t.name != 'memload':
+            return False, label, 'P', 'lane %d is not a single indexed element read: %s' % (i, T.fmt(got, 3)[:200])
+        base, off, scales = t.attrs
+        if base != 'arg:p' or off != 0 or scales != (W // 8,) or t.width != W:
+            return False, label, 'P', 'lane %d reads %s+%d with scale %s (want src + i*%d)' % (i, base, off, scales, W // 8)
+        ix = t.ops[0]
+        if ix not in (T.sext(idx[i], 64), T.zext(idx[i], 64), idx[i]):
+            return False, label, 'P', 'lane %d uses index %s instead of index lane %d' % (i, T.fmt(ix, 3)[:160], i)
+    return True, label, 'P', ''
+
+
+def scatter_spec(ty, cfg, n, args, ev):
+    label = 'scatter: dst[index lane i] = lane i; exactly n element writes'
+    W = ty.bits
+    a, idx = args[0], args[2]
+    if ev.reads or ev.writes:
+        return False, label, 'P', 'constant-offset access in a scatter'
+    st = [v for v in ev.var_access if v[0] == 'store']
+    if len(st) != n or len(ev.var_access) != n:
+        return False, label, 'P', '%d indexed writes instead of %d' % (len(st), n)
+    seen = set()
+    for (kind, p, size, val, inst) in st:
+        if p.base != 'arg:o' or p.off != 0 or size != W // 8 or len(p.var) != 1 or p.var[0][1] != W // 8:
+            return False, label, 'P', 'write at %r size %d' % (p, size)
+        ix = p.var[0][0]
+        hit = None
+        for i in range(n):
+            if ix in (T.sext(idx[i], 64), T.zext(idx[i], 64), idx[i]):
+                hit = i
+        if hit is None:
+            return False, label, 'P', 'write uses index %s which is no index lane' % T.fmt(ix, 3)[:160]
+        if T.canon(val) != a[hit]:
+            return False, label, 'P', 'index lane %d is paired with value %s instead of lane %d' % (hit, T.fmt(val, 3)[:160], hit)
+        seen.add(hit)
+    if len(seen) != n:
+        return False, label, 'P', 'lanes %s are never written' % sorted(set(range(n)) - seen)
+    return True, label, 'P', ''
